@@ -36,7 +36,7 @@ class G:
         return [self.r.choice(chars) for _ in range(n)]
 
 
-ENTRIES_TEXT = ["str", "string", "refstring", "fromstr"]
+ENTRIES_TEXT = ["str", "string", "refstring", "fromstr", "parse", "fromstrtrait", "tryfromtrait"]
 ENTRIES_BYTES = ["bytes", "vec"]
 ENTRIES_SYMS = ["collect", "fromvec", "extend", "collectf", "collectn"]
 
